@@ -48,4 +48,22 @@ def eq_atol(repo):
     return [f"/-- default `atol={val}` of DiscreteFactor.__eq__ -/",
             f"def eqAtol : Option (Nat × Nat) := some ({fr.numerator}, {fr.denominator})", ""]
 
-ALL = [valid_cpd_atol, eq_atol]
+def ci_lambda_table(repo):
+    """lambda_ argument that each named wrapper in CITests.py hands to power_divergence (C19)"""
+    t = _src(repo, "pgmpy/estimators/CITests.py")
+    table = []
+    for fn in t.body:
+        if isinstance(fn, ast.FunctionDef) and fn.name in ("chi_square", "g_sq", "log_likelihood", "modified_log_likelihood"):
+            lam = None
+            for n in ast.walk(fn):
+                if isinstance(n, ast.Call) and getattr(n.func, "id", None) == "power_divergence":
+                    for k in n.keywords:
+                        if k.arg == "lambda_" and isinstance(k.value, ast.Constant):
+                            lam = k.value.value
+            table.append((fn.name, lam))
+    table.sort()
+    items = ", ".join(f'("{a}", "{b}")' for a, b in table)
+    return ["/-- wrapper name ↦ lambda_ literal passed to power_divergence in CITests.py -/",
+            f"def ciLambdaTable : List (String × String) := [{items}]", ""]
+
+ALL = [valid_cpd_atol, eq_atol, ci_lambda_table]
